@@ -92,7 +92,7 @@ def Clause.pid : Clause → PID
   | .incompleteMeta | .f34NotRefused | .f34SdkList | .unsupportedVersion | .removedMethod | .discoverLegacy => .C06
   | _ => .C02
 
-def specRemoved : List String :=
+def removedNames : List String :=
   ["initialize", "ping", "notifications/initialized", "notifications/roots/list_changed", "logging/setLevel",
    "resources/subscribe", "resources/unsubscribe"]
 
@@ -147,7 +147,7 @@ def specWire (tv : List String) (prevInit : Bool) (m : Msg) : Option W :=
   if preemptDrops r then some .none
   else if m.new && !metaComplete r then some (refusal m (-32602) none)
   else if m.new && !acceptedBy tv m then some (refusal m (-32022) (some tv))
-  else if m.new && specRemoved.contains m.mname then some (refusal m (-32601) none)
+  else if m.new && removedNames.contains m.mname then some (refusal m (-32601) none)
   else if m.side == .server && !m.new && m.mname == "server/discover" then some (refusal m (-32601) none)
   else if m.side == .server && !m.new && !prevInit && !(["initialize", "notifications/initialized", "ping"].contains m.mname) then
     some (refusal m 0 none)
@@ -191,7 +191,7 @@ def c06Rules (mon : Mon) (m : Msg) (o : MObs) : List (Bool × Clause) :=
       o.w == .err (-32022) (some supportedProtocolVersions) && o.w != .err (-32022) (some mon.tv), .f34SdkList),
     (new && metaComplete r && !acceptedBy mon.tv m && (o.mw || changed || (r.hasId && o.w != .err (-32022) (some mon.tv))),
       .unsupportedVersion),
-    (new && metaComplete r && acceptedBy mon.tv m && specRemoved.contains m.mname && (o.mw || (r.hasId && o.w != .err (-32601) none)),
+    (new && metaComplete r && acceptedBy mon.tv m && removedNames.contains m.mname && (o.mw || (r.hasId && o.w != .err (-32601) none)),
       .removedMethod),
     (m.mname == "server/discover" && !new && (o.mw || (r.hasId && o.w != .err (-32601) none)), .discoverLegacy) ]
 
